@@ -146,10 +146,15 @@ class IpcEnv:
         """`.srv(port)` evaluated on the server's klongloop, as the CLI does."""
         node = self.server
         box = node.on_klongloop(lambda: node.klong(f".srv({port})"))
+        self.boot_boxes = [box]
         if src:
             for line in src:
-                node.on_klongloop(lambda line=line: node.klong(line))
+                self.boot_boxes.append(node.on_klongloop(lambda line=line: node.klong(line)))
         return box
+
+    def booted(self):
+        """every start-up line of the server has been evaluated"""
+        return all(("result" in b or "exc" in b) for b in getattr(self, "boot_boxes", []))
 
     def listener_up(self, port=PORT):
         return port in self.net.listeners
